@@ -5,7 +5,12 @@ stdin : {"inputs": npz, "outputs": npz, "geom": [{"id": k, "has_box": bool, "ops
         (edits: rename_atom i name | rename_residue r name | delete_atom i | add_atom r name | add_chain [residues];
          the named torsions are recomputed on the SAME Topology object after every step -> "history")
         arrays: g<k>_xyz (F,n,3) float32, g<k>_idx (m,3|4) int, g<k>_box (F,3,3) float32 (rows = cell vectors)
-stdout: last line {"errors": {...}, "topo": {k: {"indices": {name: [[...]]}, "compute_equal": bool}}}; arrays g<k>_o<j>.
+        "front": [{"id": k, "kind": "validate", "op", "n", "F", "rows" | "empty_width"}            -> status / shape / error text
+                  {"id": k, "kind": "flag", "op", "has_box", "calls": [[opt, flagcode], ...]}     -> arrays f<k>_c<j>
+                  {"id": k, "kind": "nearortho", "op", "calls": [[opt, flagcode], ...]}           -> f<k>_c<j>, f<k>_vectors]
+        (flag codes: 0 True, 1 False, 2 numpy.True_, 3 numpy.False_, 4 int 1, 5 int 0; arrays f<k>_xyz, f<k>_idx,
+         f<k>_box (F,3,3) or f<k>_lengths/f<k>_angles (F,3))
+stdout: last line {"errors": {...}, "topo": {k: {"indices": {name: [[...]]}, "compute_equal": bool}}, "front": {k: {...}}}; arrays g<k>_o<j>.
 Only mdtraj is exercised here; all comparisons happen in harness/props/C07.py.
 """
 import json
@@ -90,10 +95,49 @@ def named(top, rs):
     return {"indices": ind, "compute_equal": same}
 
 
+FLAGS = {0: True, 1: False, 2: np.True_, 3: np.False_, 4: 1, 5: 0}
+
+
+def run_front(c, data, out):
+    """the Python front ends: index validation, the `periodic` argument as an arbitrary object, nearly orthorhombic cells"""
+    k = c["id"]
+    fn = md.compute_angles if c["op"] == "angles" else md.compute_dihedrals
+    if c["kind"] == "validate":
+        t = plain_traj(np.zeros((c["F"], c["n"], 3), dtype=np.float32) + np.arange(c["n"], dtype=np.float32)[None, :, None] * 0.1, None)
+        idx = np.zeros((0, c["empty_width"]), dtype=int) if "empty_width" in c else np.array(c["rows"], dtype=int)
+        try:
+            v = fn(t, idx)
+            return {"status": "ok", "shape": list(np.asarray(v).shape)}
+        except Exception as e:
+            return {"status": "raise", "exc": type(e).__name__, "msg": str(e)[:200]}
+    xyz = data["f%d_xyz" % k]
+    if c["kind"] == "flag":
+        t = plain_traj(xyz, data["f%d_box" % k] if c["has_box"] else None)
+    else:
+        t = plain_traj(xyz, None)
+        t.unitcell_lengths = np.array(data["f%d_lengths" % k], dtype=np.float32)
+        t.unitcell_angles = np.array(data["f%d_angles" % k], dtype=np.float32)
+        out["f%d_vectors" % k] = np.asarray(t.unitcell_vectors, dtype=np.float32)
+    idx = data["f%d_idx" % k]
+    res = {}
+    for j, (opt, code) in enumerate(c["calls"]):
+        try:
+            out["f%d_c%d" % (k, j)] = np.asarray(fn(t, idx, periodic=FLAGS[code], opt=bool(opt)))
+        except Exception as e:
+            res["c%d" % j] = "%s: %s" % (type(e).__name__, str(e)[:200])
+    return {"status": "ok", "errors": res}
+
+
 def main():
     req = json.loads(sys.stdin.read())
-    data = np.load(req["inputs"]) if req.get("geom") else {}
+    data = np.load(req["inputs"]) if (req.get("geom") or req.get("front")) else {}
     out, errors, topo_out = {}, {}, {}
+    front_out = {}
+    for c in req.get("front", []):
+        try:
+            front_out[str(c["id"])] = run_front(c, data, out)
+        except Exception as e:
+            errors["f%d" % c["id"]] = "%s: %s" % (type(e).__name__, str(e)[:300])
     for c in req.get("geom", []):
         k = c["id"]
         t = plain_traj(data["g%d_xyz" % k], data["g%d_box" % k] if c["has_box"] else None)
@@ -138,9 +182,9 @@ def main():
                 topo_out[str(k)]["history"] = hist
         except Exception as e:
             errors["t%d" % k] = "%s: %s" % (type(e).__name__, str(e)[:300])
-    if req.get("geom"):
+    if req.get("geom") or req.get("front"):
         np.savez(req["outputs"], **out)
-    print(json.dumps({"errors": errors, "topo": topo_out}))
+    print(json.dumps({"errors": errors, "topo": topo_out, "front": front_out}))
 
 
 if __name__ == "__main__":
